@@ -150,7 +150,7 @@ example : paddingRequiredW.eval (WExpr.envOf [4294967295]) = some (1, 32) := by 
 
 /-- `new_empty()` is a well-formed header -/
 theorem empty_wf : HeaderWF Header.empty :=
-  ⟨rfl, rfl, by decide, by decide, fun _ h => (nomatch h), fun _ h => (nomatch h)⟩
+  ⟨rfl, rfl, by decide, by decide, fun _ h => (nomatch h), fun _ h => (nomatch h), Nat.le_refl 0⟩
 
 /-- `clear()` of ANY header value (well formed or not) is the `new_empty()` value -/
 theorem clear_eq_empty (h : Header) : h.clear = Header.empty := rfl
